@@ -316,9 +316,9 @@ func workload(c *mc.Ctx) {
 		// observe portably is membership in the 8-torsion, and (documented) equality of the two variants
 		return hx(eb(curve.NewEdwardsPoint().DoubleScalarMulBasepointVartime(a, A, b)), eb(curve.NewEdwardsPoint().ExpandedDoubleScalarMulBasepointVartime(a, x, b)), t1.IsSmallOrder(), t2.IsSmallOrder(), eb(t1), eb(t2))
 	})
-	sizes := []int{0, 1, 2, 3, 8, 189, 190, 191}
+	sizes := []int{0, 1, 2, 3, 8, 189, 190, 191, 500, 800}
 	if c.Thorough {
-		sizes = append(sizes, 499, 500, 501, 799, 800, 801)
+		sizes = append(sizes, 499, 501, 799, 801, 1000)
 	}
 	space(c, "edwards.Multiscalar", len(sizes)*4, func(i int) string {
 		n := sizes[i/4]
